@@ -162,3 +162,25 @@ def make_dict_str_none() -> dict[str, None]:
 
 def make_pair_union(flag: bool) -> tuple[int | str, B]:
     return (1 if flag else "s", B(1))
+
+
+class _Left:
+    """Holder of a nested class that shares its simple name with ``_Right.Meta`` (different qualified names)."""
+
+    class Meta:
+        pass
+
+
+class _Right:
+    class Meta(B):
+        def __init__(self) -> None:
+            super().__init__(7)
+
+
+# the nested classes enter the analysis as base classes of module-level classes
+class _LeftMeta(_Left.Meta):
+    pass
+
+
+class _RightMeta(_Right.Meta):
+    pass
